@@ -198,7 +198,7 @@ Theorem ok_reserved_names : forall text r qn eq prefix local value c c',
      bytes_eqb vb ns_xmlns_uri = false /\                           (* nothing bound to the xmlns URI *)
      bytes_eqb lb ns_xml_prefix = bytes_eqb vb ns_xml_uri) /\       (* p = xml <-> v = the xml URI *)
   (* xmlns='v' *)
-  (bytes_eqb pb xmlns_str = false -> bytes_eqb lb xmlns_str = true ->
+  (bytes_eqb pb xmlns_str = false -> slice_len prefix = 0 -> bytes_eqb lb xmlns_str = true ->
      bytes_eqb vb ns_xml_uri = false /\ bytes_eqb vb ns_xmlns_uri = false).
 Proof.
   intros text r qn eq prefix local value c c' H. unfold process_attribute in H.
@@ -210,7 +210,7 @@ Proof.
     destruct (bytes_eqb (slice_bytes text local) ns_xml_prefix) eqn:Ex,
              (bytes_eqb (storage_bytes text v) ns_xml_uri) eqn:Eu; cbn [negb andb] in H; try noerr;
       (split; [auto | intros; discriminate]).
-  - split; [intros; discriminate|]. intros _ El. rewrite El in H.
+  - split; [intros; discriminate|]. intros _ E0 El. rewrite El, E0 in H. change ((0 =? 0) && true) with true in H. cbv iota in H.
     destruct (bytes_eqb (storage_bytes text v) ns_xml_uri) eqn:Eu; [noerr|].
     destruct (bytes_eqb (storage_bytes text v) ns_xmlns_uri) eqn:Ev; [noerr|]. auto.
 Qed.
